@@ -19,6 +19,7 @@ import DeapModel.Lemmas.C12Adf
 import DeapModel.Lemmas.C12PyTree
 import DeapModel.Lemmas.C12Graph
 import DeapModel.Lemmas.C12Sem
+import DeapModel.Lemmas.C12Rename
 import DeapModel.Lemmas.C11Semantic
 import Mathlib.Analysis.SpecialFunctions.Log.Basic
 
@@ -569,5 +570,132 @@ theorem semantic_cx_denotes_real {env : EnvG ℝ} {pc : SemPieces} (he : RealGsg
 
 example : ConstDenotes exRealEnv "0.5" (1 / 2) ∧ evalG exRealEnv (.node gsX []) = some 3 := by
   refine ⟨⟨?_, ?_⟩, ?_⟩ <;> simp [exRealEnv, gsX, evalG]
+
+/-! ## Renaming histories
+
+A tree object holds REFERENCES to the argument terminals of its set; `renameArguments` mutates them in place.  The tree
+(`t`, with `argIx` telling which nodes are references and to which position) is constant through a history; the
+state is the list of current names. -/
+
+/-- fixtures: `sub(<arg0>, <arg1>)`, references recognised by the marker names `@0`, `@1` -/
+def hA0 : Prim := ⟨"@0", 0, [], .term, "stale"⟩
+def hA1 : Prim := ⟨"@1", 0, [], .term, "stale"⟩
+def hSub : Prim := ⟨"sub", 0, [0, 0], .prim, ""⟩
+def hTree : Tree := .node hSub [.node hA0 [], .node hA1 []]
+def hIx (p : Prim) : Option Nat := if p = hA0 then some 0 else if p = hA1 then some 1 else none
+def hNames0 : List Str := ["ARG0".toList, "ARG1".toList]
+/-- swap, then a chained renaming of one of the two -/
+def hKs : List (List (Str × Str)) :=
+  [[("ARG0".toList, "ARG1".toList), ("ARG1".toList, "ARG0".toList)], [("ARG1".toList, "x".toList)]]
+
+/-- **Compile after any history of renamings.**  For every sequence `ks` of `renameArguments` calls on a set whose
+arguments were `names0`, compiling the (unchanged) tree object under the FINAL names and calling the result on `vals`
+gives the direct, name-free interpretation of the tree: the terminal of argument position `i` denotes `vals[i]` —
+provided the final names are distinct and none of them is the text of another node of the tree (a lambda parameter
+shadows the context).  Nothing of what was printed or compiled before the last renaming enters. -/
+theorem compile_after_rename_history (env : Env) (argIx : Prim → Option Nat) (names0 : List Str)
+    (ks : List (List (Str × Str))) (t : Tree) (vals : List Val)
+    (hnd : (renameHistory names0 ks).Nodup) (hlen : vals.length = names0.length)
+    (hix : ∀ p ∈ flatten t, ∀ i, argIx p = some i → i < names0.length)
+    (hfr : ∀ p ∈ flatten t, argIx p = none → tok p ∉ renameHistory names0 ks) :
+    compile env (renameHistory names0 ks) (viewTree argIx (renameHistory names0 ks) t) vals =
+      evalRef env argIx vals t := by
+  have hl : (renameHistory names0 ks).length = names0.length := renameHistory_length ks names0
+  unfold compile viewTree
+  rw [if_neg (by rw [hl]; exact fun h => h hlen)]
+  exact evalTree_view env argIx _ vals hnd (by rw [hl]; exact hlen) t (by rw [hl]; exact hix) hfr
+
+example : renameHistory hNames0 hKs = ["x".toList, "ARG0".toList] ∧ (renameHistory hNames0 hKs).Nodup ∧
+    ([.int 10, .int 1] : List Val).length = hNames0.length ∧
+    (∀ p ∈ flatten hTree, ∀ i, hIx p = some i → i < hNames0.length) ∧
+    (∀ p ∈ flatten hTree, hIx p = none → tok p ∉ renameHistory hNames0 hKs) ∧
+    String.ofList (compileSrc (renameHistory hNames0 hKs) (flatten (viewTree hIx (renameHistory hNames0 hKs) hTree))) =
+      "lambda x,ARG0: sub(x, ARG0)" := by decide
+
+/-- the same through the TEXT, as `gp.compile` does it (source string, `eval` in `pset.context`, call): the source built
+from the tree's nodes as they print under the final names evaluates to the name-free interpretation. -/
+theorem pyCompile_after_rename_history (P : PyEnv) (argIx : Prim → Option Nat) (names0 : List Str)
+    (ks : List (List (Str × Str))) (t : Tree) (vals : List Val) (hw : wf t = true)
+    (ha : ArgsOK (renameHistory names0 ks) = true) (hlen : vals.length = names0.length)
+    (hs : ∀ p ∈ flatten t, SrcOK (viewNode argIx (renameHistory names0 ks) p) = true)
+    (hix : ∀ p ∈ flatten t, ∀ i, argIx p = some i → i < names0.length)
+    (hfr : ∀ p ∈ flatten t, argIx p = none → tok p ∉ renameHistory names0 ks) :
+    pyCompile P (renameHistory names0 ks) ((flatten t).map (viewNode argIx (renameHistory names0 ks))) vals =
+      evalRef (envOfPy P) argIx vals t := by
+  have hwv : wf (viewTree argIx (renameHistory names0 ks) t) = true := by
+    unfold viewTree; rw [wf_mapTree _ (viewNode_args argIx _)]; exact hw
+  have hsv : ∀ p ∈ flatten (viewTree argIx (renameHistory names0 ks) t), SrcOK p = true := by
+    unfold viewTree; rw [flatten_mapTree]
+    intro p hp
+    obtain ⟨q, hq, rfl⟩ := List.mem_map.mp hp
+    exact hs q hq
+  have := evalSrc_compile P (renameHistory names0 ks) (viewTree argIx (renameHistory names0 ks) t) vals hwv ha hsv
+  unfold viewTree at this
+  rw [flatten_mapTree] at this
+  rw [this]
+  exact compile_after_rename_history (envOfPy P) argIx names0 ks t vals (nodupStr_nodup (argsOK_nodup ha)) hlen hix hfr
+
+example : wf hTree = true ∧ ArgsOK (renameHistory hNames0 hKs) = true ∧
+    (∀ p ∈ flatten hTree, SrcOK (viewNode hIx (renameHistory hNames0 hKs) p) = true) := by decide
+
+/-- the renamings of a session, in order -/
+def renamesOf : List HStep → List (List (Str × Str))
+  | [] => []
+  | .rename k :: rest => k :: renamesOf rest
+  | _ :: rest => renamesOf rest
+
+/-- **What a session observes last depends on the node list and the final names only.**  Whatever was printed, compiled
+or renamed before (`steps`), a `compile` at the end hands `eval` the source built from the node list as it prints under
+`renameHistory cur (renamesOf steps)`, a `str` returns that text: `str` is a function of the current node names, there
+is no state of earlier observations in it (what a cache of the printed text would add). -/
+theorem session_last_observation (argIx : Prim → Option Nat) (l : List Prim) (steps : List HStep) (cur : List Str) :
+    (runSession argIx l cur steps).2 = renameHistory cur (renamesOf steps) ∧
+    (runSession argIx l cur (steps ++ [.compile])).1 = (runSession argIx l cur steps).1 ++
+      [compileSrc (renameHistory cur (renamesOf steps))
+        (l.map (viewNode argIx (renameHistory cur (renamesOf steps))))] ∧
+    (runSession argIx l cur (steps ++ [.str])).1 = (runSession argIx l cur steps).1 ++
+      [strBuilder (l.map (viewNode argIx (renameHistory cur (renamesOf steps))))] := by
+  induction steps generalizing cur with
+  | nil => simp [runSession, renamesOf, renameHistory]
+  | cons s rest ih =>
+    cases s with
+    | rename k =>
+      have := ih (renameArgs cur k)
+      simpa [runSession, renamesOf, renameHistory] using this
+    | compile =>
+      have := ih cur
+      simp only [List.cons_append, runSession, renamesOf]
+      exact ⟨this.1, by rw [this.2.1], by rw [this.2.2]⟩
+    | str =>
+      have := ih cur
+      simp only [List.cons_append, runSession, renamesOf]
+      exact ⟨this.1, by rw [this.2.1], by rw [this.2.2]⟩
+
+/-- the printed tree after a history is the recursive text of the tree under the final names -/
+theorem str_after_rename_history (argIx : Prim → Option Nat) (names0 : List Str) (ks : List (List (Str × Str)))
+    (t : Tree) (hw : wf t = true) :
+    strBuilder ((flatten t).map (viewNode argIx (renameHistory names0 ks))) =
+      render (viewTree argIx (renameHistory names0 ks) t) := by
+  have hwv : wf (viewTree argIx (renameHistory names0 ks) t) = true := by
+    unfold viewTree; rw [wf_mapTree _ (viewNode_args argIx _)]; exact hw
+  have := str_eq_render _ hwv
+  unfold viewTree at this ⊢
+  rw [flatten_mapTree] at this
+  exact this
+
+example : wf hTree = true ∧
+    String.ofList (render (viewTree hIx (renameHistory hNames0 hKs) hTree)) = "sub(x, ARG0)" := by decide
+
+/-- renaming back: a renaming followed by its inverse restores the names (so the tree prints as at the start) -/
+theorem rename_back (names : List Str) (k k' : List (Str × Str))
+    (hinv : ∀ a ∈ names, (kwLookup k' ((kwLookup k a).getD a)).getD ((kwLookup k a).getD a) = a) :
+    renameHistory names [k, k'] = names := by
+  simp only [renameHistory, List.foldl, renameArgs, List.map_map]
+  conv_rhs => rw [← List.map_id names]
+  exact List.map_congr_left (fun a ha => by simpa using hinv a ha)
+
+example : ∀ a ∈ hNames0,
+    (kwLookup [("ARG1".toList, "ARG0".toList), ("ARG0".toList, "ARG1".toList)]
+      ((kwLookup (hKs.headD []) a).getD a)).getD ((kwLookup (hKs.headD []) a).getD a) = a := by decide
 
 end C12
